@@ -80,6 +80,23 @@ pub const NUMBERS: &[f64] = &[
     1e15,
     1e16,
     0.1,
+    // around the integer fast paths of the JSON encoder and the 64-bit limits
+    9.0e15,
+    8999999999999999.0,
+    -9.0e15,
+    4e18,
+    -4e18,
+    9223372036854777856.0,   // next above 2^63
+    -9223372036854777856.0,  // next below -2^63
+    9223372036854774784.0,   // next below 2^63
+    1e19,
+    -1e19,
+    18446744073709551616.0,  // 2^64
+    -18446744073709551616.0, // -2^64
+    18446744073709555712.0,  // next above 2^64
+    -1.8446744073709550e19,  // next above -2^64
+    4294967296.0,            // 2^32
+    -2147483649.0,
 ];
 
 pub const UNITS: &[&str] = &["kW", "°F", "%", "$", "m²", "kWh/m²", "gH₂O/kgAir", "W/ft²_irr", "Δ°C", "µs", "R$", "Ω", "inHg", "ft²"];
@@ -509,7 +526,41 @@ pub fn container_shards(tier: Tier) -> Vec<Shard> {
             grid_shards(p2.clone(), p2.clone(), 2, 1, 2, 2, 1, &mut out);
         }
     }
+    out.push(Box::new(ver_variants));
     out
+}
+
+/// Grids whose `ver` is not the default, with every grid-meta variant (absent, empty, one tag,
+/// two tags), three shapes, bare and nested in a list, a dict and a cell of a default-`ver` and of
+/// a non-default-`ver` grid.
+pub fn ver_variants(sink: &mut dyn FnMut(V)) {
+    let cm = col_metas();
+    for ver in ["2.0", "3.1"] {
+        for meta in grid_metas() {
+            let shapes: Vec<(Vec<Col>, Vec<Tags>)> = vec![
+                (vec![Col { name: "a".into(), meta: None }], vec![]),
+                (vec![Col { name: "a".into(), meta: None }], vec![mk_tags(&[("a", V::num(1.0))])]),
+                (
+                    vec![Col { name: "a".into(), meta: cm[1].clone() }, Col { name: "b".into(), meta: cm[2].clone() }],
+                    vec![mk_tags(&[("a", V::str("x")), ("b", V::Null)]), mk_tags(&[("b", V::Marker)])],
+                ),
+            ];
+            for (cols, rows) in shapes {
+                let g = V::Grid(Box::new(G { ver: ver.into(), meta: meta.clone(), cols, rows }));
+                sink(g.clone());
+                sink(V::List(vec![g.clone(), V::num(1.0)]));
+                sink(V::dict(&[("k", g.clone())]));
+                for outer in ["3.0", ver] {
+                    sink(V::Grid(Box::new(G {
+                        ver: outer.into(),
+                        meta: None,
+                        cols: vec![Col { name: "c".into(), meta: None }, Col { name: "d".into(), meta: None }],
+                        rows: vec![mk_tags(&[("c", g.clone())]), mk_tags(&[("d", V::num(2.0))])],
+                    })));
+                }
+            }
+        }
+    }
 }
 
 /// Materialised container universe (quick tier sizes only).
